@@ -280,6 +280,8 @@ def execute(sc):
                     results.append(r)
                     vs, zone = check_strict_verify(v, r, 'assert_directory_verifies(%r)' % op.get('sub', ''))
                     violations += vs
+                    if zone:
+                        zones[zone] = zones.get(zone, 0) + 1
                     if v.kind == 'CHAIN':
                         broken_any += 1
                     counters['dir.' + v.kind] = counters.get('dir.' + v.kind, 0) + 1
@@ -311,12 +313,24 @@ def execute(sc):
                 if r[0] == 'ok':
                     violations.append(viol('chain.top-unusable-but-result', '%s returned %r' % (what, r[1])))
                 continue
+            if r[0] == 'GE' and r[1] == 'ManifestMismatch' and r[2].path in v.bad_refs:
+                # a Manifest accepted through one parent's entry fails the entry another accepted Manifest holds for
+                # it; whether that second entry is compared depends on what the loader had loaded before
+                zones['wrong-second-manifest-reference'] = zones.get('wrong-second-manifest-reference', 0) + 1
+                if v.chain:
+                    broken_any += 1
+                continue
             if v.chain:
                 broken_any += 1
                 counters[api + '.through-broken-link'] = counters.get(api + '.through-broken-link', 0) + 1
                 if r[0] == 'GE' and r[1] == 'ManifestMismatch' and r[2].path in v.chain:
                     continue
                 if 'manifest-beneath-file' in v.zones and r[0] == 'OS':
+                    continue
+                if all(c in v.partial for c in v.chain):
+                    # matched the entry of one accepted parent Manifest, which is all the statement asks for; whether
+                    # the other parent's entry is compared too depends on the loader's earlier calls
+                    zones['sub-manifest-matches-one-parent-entry-not-another'] = zones.get('sub-manifest-matches-one-parent-entry-not-another', 0) + 1
                     continue
                 violations.append(viol('chain.not-detected',
                                        '%s: its chain passes the broken link %r but gemato %s' % (what, v.chain, describe(r)),
